@@ -87,13 +87,13 @@ def detect_adt_renames(cur, base):
 
 
 def detect_field_renames(cur, base):
-    """{new field name: old field name} for crate-local ADTs that kept their path, field count and field types (in
-    order) but changed some field names; only names that are unambiguous crate-wide are renamed"""
-    ren = {}
-    bad = set()
+    """{adt path: {new field name: old field name}} for crate-local ADTs that kept their path, field count and field
+    types (in order) but changed some field names"""
+    out = {}
     for p, vs in cur.items():
         if p not in base or len(base[p]) != len(vs):
             continue
+        m = {}
         for v_new, v_old in zip(vs, base[p]):
             if len(v_new) != len(v_old) or [t for _, t in v_new] != [t for _, t in v_old]:
                 continue
@@ -101,45 +101,108 @@ def detect_field_renames(cur, base):
                 continue
             for (nn, _), (on, _) in zip(v_new, v_old):
                 if nn != on:
-                    if ren.get(nn, on) != on:
-                        bad.add(nn)
-                    ren[nn] = on
-    # a new name that is also a (non-renamed) field of another local type cannot be renamed globally
-    for p, vs in cur.items():
-        for v in vs:
-            for n, _ in v:
-                if n in ren:
-                    # is this occurrence itself one of the renamed ones?
-                    if p in base and any(len(vo) == len(v) and [t for _, t in vo] == [t for _, t in v] and ren[n] in [x for x, _ in vo] and n not in [x for x, _ in vo] for vo in base[p]):
-                        continue
-                    bad.add(n)
-    # nor may the old name still be in use as a different field of the same type
-    return {n: o for n, o in ren.items() if n not in bad}
+                    m[nn] = on
+        if m:
+            out[p] = m
+    return out
 
 
 def apply_field_renames(d, ren):
-    """rename field names in place projections, aggregates, ADT tables and typed HIR"""
-    def rec(x):
+    """rename fields of the given ADTs in place projections (owner type tracked along the projection), aggregates,
+    ADT tables and typed HIR"""
+    types = d["types"]
+
+    def owner_adt(ti):
+        seen = 0
+        while ti is not None and seen < 6:
+            t = types[ti]
+            if t["k"] in ("ref", "refmut", "ptr"):
+                ti = t.get("inner")
+            elif t["k"] == "adt" and t.get("adt", "").endswith("boxed::Box") and t.get("args"):
+                ti = t["args"][0]
+            else:
+                return t.get("adt") if t["k"] == "adt" else None
+            seen += 1
+        return None
+
+    def fix_place(pl, locals_):
+        ti = locals_[pl["local"]]["ty"] if 0 <= pl["local"] < len(locals_) else None
+        for e in pl["proj"]:
+            k = e["k"]
+            if k == "deref":
+                t = types[ti] if ti is not None else None
+                if t is None:
+                    ti = None
+                elif t["k"] in ("ref", "refmut", "ptr"):
+                    ti = t.get("inner")
+                elif t["k"] == "adt" and t.get("args"):
+                    ti = t["args"][0]
+                else:
+                    ti = None
+            elif k == "field":
+                own = owner_adt(ti) if ti is not None else None
+                if own in ren and e.get("name") in ren[own]:
+                    e["name"] = ren[own][e["name"]]
+                ti = e.get("ty")
+            elif k in ("index", "constindex", "subslice"):
+                t = types[ti] if ti is not None else None
+                ti = t.get("inner") if t is not None and t["k"] in ("array", "slice") and k != "subslice" else (ti if k == "subslice" else None)
+            elif k == "downcast":
+                pass
+            else:
+                ti = None
+
+    def walk_mir(x, locals_):
         if isinstance(x, dict):
-            if x.get("k") == "field" and x.get("name") in ren:
-                x["name"] = ren[x["name"]]
-            if "field_names" in x and isinstance(x["field_names"], list):
-                x["field_names"] = [ren.get(n, n) for n in x["field_names"]]
-            if x.get("k") == "struct" and isinstance(x.get("fields"), list):
-                for f in x["fields"]:
-                    if isinstance(f, dict) and f.get("name") in ren:
-                        f["name"] = ren[f["name"]]
+            if "local" in x and "proj" in x and isinstance(x["proj"], list):
+                fix_place(x, locals_)
+                return
+            if x.get("k") == "aggregate" and x.get("agg") == "adt" and isinstance(x.get("field_names"), list):
+                m = ren.get(x.get("adt"))
+                if m:
+                    x["field_names"] = [m.get(n, n) for n in x["field_names"]]
             for v in x.values():
-                rec(v)
+                walk_mir(v, locals_)
         elif isinstance(x, list):
             for v in x:
-                rec(v)
-    rec(d["bodies"])
+                walk_mir(v, locals_)
+
+    def walk_hir(x):
+        if isinstance(x, dict):
+            if x.get("k") == "field" and isinstance(x.get("a"), dict):
+                own = owner_adt(x["a"].get("t")) if x["a"].get("t") is not None else None
+                if own in ren and x.get("name") in ren[own]:
+                    x["name"] = ren[own][x["name"]]
+            if x.get("k") == "struct" and isinstance(x.get("fields"), list):
+                own = owner_adt(x.get("t")) if x.get("t") is not None else None
+                cands = [own] if own in ren else [a for a in ren if all((f.get("name") in ren[a] or f.get("name") in ren[a].values()) for f in x["fields"] if isinstance(f, dict))]
+                if len(cands) == 1 and cands[0] in ren:
+                    for f in x["fields"]:
+                        if isinstance(f, dict) and f.get("name") in ren[cands[0]]:
+                            f["name"] = ren[cands[0]][f["name"]]
+            for v in x.values():
+                walk_hir(v)
+        elif isinstance(x, list):
+            for v in x:
+                walk_hir(v)
+
+    for b in d["bodies"]:
+        if "mir" in b:
+            walk_mir(b["mir"]["blocks"], b["mir"]["locals"])
+            for dbg in b["mir"].get("dbg", []):
+                fix_place(dbg["place"], b["mir"]["locals"])
+        for pm in b.get("promoted") or []:
+            if isinstance(pm, dict) and "blocks" in pm and "locals" in pm:
+                walk_mir(pm["blocks"], pm["locals"])
+        if "hir" in b:
+            walk_hir(b["hir"])
     for a in d.get("adts", []):
-        for v in a["variants"]:
-            for f in v["fields"]:
-                if f["name"] in ren:
-                    f["name"] = ren[f["name"]]
+        m = ren.get(a["path"])
+        if m:
+            for v in a["variants"]:
+                for f in v["fields"]:
+                    if f["name"] in m:
+                        f["name"] = m[f["name"]]
 
 
 def load_baseline():
